@@ -162,10 +162,12 @@ func (s *Session) Do(line string) {
 			f.Case = line
 		}
 		f.Case = s.P.ID() + " " + f.Case
-		if len(s.Meta.Failures) < 200 {
+		// keep at most 8 failures per class (and 600 in all): a frequent known class must not crowd
+		// out a new one
+		s.Meta.Histogram["oracle-failure:"+f.Class]++
+		if s.Meta.Histogram["oracle-failure:"+f.Class] <= 8 && len(s.Meta.Failures) < 600 {
 			s.Meta.Failures = append(s.Meta.Failures, f)
 		}
-		s.Meta.Histogram["oracle-failure:"+f.Class]++
 	}
 }
 
